@@ -314,6 +314,102 @@ theorem remapSymbols_cells (ls le : Nat) : ∀ (n : Nat) (s s' : Store) (i : Nat
     have := remapSymbols_cells ls le n _ s' (i + 1) h4
     simpa using this
 
+theorem get_ok {s : Store} {i : Nat} {c : Cell} (h : s.get i = .ok c) : s.cells[i]? = some c := by
+  unfold Store.get at h
+  split at h
+  · simp only [Outcome.ok.injEq] at h; subst h; assumption
+  · simp at h
+
+/-- the re-pointing loop writes cells only (never the frame), and keeps the size -/
+theorem repointStep_ext {ls le : Nat} {s s' : Store} {index : Nat} {nxt : Option (Option Nat)}
+    (h : Store.repointStep ls le s index = .ok (s', nxt)) : Ext 0 s s' := by
+  simp only [Store.repointStep, bind_eq_ok] at h
+  obtain ⟨c, _, h2⟩ := h
+  split at h2
+  · split at h2
+    · simp only [bind_eq_ok, pure_eq_ok, Prod.mk.injEq] at h2
+      obtain ⟨m, _, s1, h3, h4, _⟩ := h2
+      subst h4; exact setCell_ext (Nat.zero_le _) h3
+    · simp only [pure_eq_ok, Prod.mk.injEq] at h2
+      obtain ⟨h4, _⟩ := h2
+      subst h4; exact Ext.refl _ _
+  · split at h2
+    · simp only [bind_eq_ok, pure_eq_ok, Prod.mk.injEq] at h2
+      obtain ⟨m, _, s1, h3, h4, _⟩ := h2
+      subst h4; exact setCell_ext (Nat.zero_le _) h3
+    · simp only [pure_eq_ok, Prod.mk.injEq] at h2
+      obtain ⟨h4, _⟩ := h2
+      subst h4; exact Ext.refl _ _
+  · simp only [pure_eq_ok, Prod.mk.injEq] at h2
+    obtain ⟨h4, _⟩ := h2
+    subst h4; exact Ext.refl _ _
+
+theorem repointLoop_ext (ls le : Nat) : ∀ (n : Nat) (s s' : Store) (o : Option Nat),
+    Store.repointLoop ls le n s o = .ok s' → Ext 0 s s'
+  | n, s, s', none, h => by
+    cases n <;> (simp only [Store.repointLoop, Outcome.ok.injEq] at h; subst h; exact Ext.refl _ _)
+  | 0, s, s', some i, h => by
+    simp only [Store.repointLoop, bind_eq_ok, pure_eq_ok] at h
+    obtain ⟨⟨s1, nx⟩, h1, h2⟩ := h
+    subst h2; exact repointStep_ext h1
+  | n + 1, s, s', some i, h => by
+    simp only [Store.repointLoop, bind_eq_ok] at h
+    obtain ⟨⟨s1, nx⟩, h1, h2⟩ := h
+    have e1 := repointStep_ext h1
+    cases nx with
+    | none =>
+      simp only [pure_eq_ok] at h2
+      subst h2; exact e1
+    | some prev => exact e1.trans (repointLoop_ext ls le n s1 s' prev h2)
+
+/-- retained input-value cells refer below the retention count (true unless a retained `Value` cell was
+updated in place after the count was taken) -/
+def ValueLinksClosed (s : Store) : Prop :=
+  ∀ (i p v : Nat), i < s.retention →
+    (s.cells[i]? = some (.value p v) ∨ s.cells[i]? = some (.valueRoot v)) → v < s.retention
+
+theorem repointStep_noop {ls le : Nat} {s s' : Store} {index : Nat} {nxt : Option (Option Nat)}
+    (hc : ValueLinksClosed s) (h : Store.repointStep ls le s index = .ok (s', nxt)) : s' = s := by
+  simp only [Store.repointStep, bind_eq_ok] at h
+  obtain ⟨c, hg, h2⟩ := h
+  have hcell := get_ok hg
+  split at h2
+  · rename_i previous value
+    split at h2
+    · rename_i hcond
+      have := hc index previous value hcond.1 (Or.inl hcell)
+      omega
+    · simp only [pure_eq_ok, Prod.mk.injEq] at h2
+      exact h2.1.symm
+  · rename_i value
+    split at h2
+    · rename_i hcond
+      have := hc index 0 value hcond.1 (Or.inr hcell)
+      omega
+    · simp only [pure_eq_ok, Prod.mk.injEq] at h2
+      exact h2.1.symm
+  · simp only [pure_eq_ok, Prod.mk.injEq] at h2
+    exact h2.1.symm
+
+theorem repointLoop_noop (ls le : Nat) : ∀ (n : Nat) (s s' : Store) (o : Option Nat),
+    ValueLinksClosed s → Store.repointLoop ls le n s o = .ok s' → s' = s
+  | n, s, s', none, _, h => by
+    cases n <;> (simp only [Store.repointLoop, Outcome.ok.injEq] at h; exact h.symm)
+  | 0, s, s', some i, hc, h => by
+    simp only [Store.repointLoop, bind_eq_ok, pure_eq_ok] at h
+    obtain ⟨⟨s1, nx⟩, h1, h2⟩ := h
+    subst h2; exact repointStep_noop hc h1
+  | n + 1, s, s', some i, hc, h => by
+    simp only [Store.repointLoop, bind_eq_ok] at h
+    obtain ⟨⟨s1, nx⟩, h1, h2⟩ := h
+    have e1 : s1 = s := repointStep_noop hc h1
+    subst e1
+    cases nx with
+    | none =>
+      simp only [pure_eq_ok] at h2
+      exact h2.symm
+    | some prev => exact repointLoop_noop ls le n s1 s' prev hc h2
+
 theorem slide_size : ∀ (n : Nat) (cells : Array Cell) (dst src : Nat),
     (Store.slide cells dst src n).size = cells.size
   | 0, cells, dst, src => rfl
@@ -342,7 +438,7 @@ theorem slide_extract_prefix (cells : Array Cell) (r src n : Nat) (hr : r ≤ ce
     omega
 
 theorem optimize_retained_prefix_unchanged {s s' : Store} {roots m : List Nat}
-    (h : Store.optimize s roots = .ok (s', m)) (hr : s.retention ≤ s.cells.size) :
+    (h : Store.optimize s roots = .ok (s', m)) (hr : s.retention ≤ s.cells.size) (hvc : ValueLinksClosed s) :
     s'.retention = s.retention ∧ s'.start = s.start ∧ s.retention ≤ s'.cells.size ∧
       ∀ i, i < s.retention → s'.cells[i]? = s.cells[i]? := by
   unfold Store.optimize at h
@@ -357,8 +453,8 @@ theorem optimize_retained_prefix_unchanged {s s' : Store} {roots m : List Nat}
   split at h6
   · simp at h6
   · simp only [bind_eq_ok] at h6
-    obtain ⟨s6, h7, s7, h8, reg, _, val, _, fr, _, mapped, _, h9⟩ := h6
-    have e6 : Ext s.retention s5 s6 := by
+    obtain ⟨s6', h7, s6, hR, s7, h8, reg, _, val, _, fr, _, mapped, _, h9⟩ := h6
+    have e6 : Ext s.retention s5 s6' := by
       split at h7
       · simp only [bind_eq_ok, pure_eq_ok] at h7
         obtain ⟨⟨sx, r⟩, hx, hy⟩ := h7
@@ -366,7 +462,15 @@ theorem optimize_retained_prefix_unchanged {s s' : Store} {roots m : List Nat}
         exact cloneIndexStack_ext (by simpa [Store.cursor] using hr) hx
       · simp only [pure, Outcome.ok.injEq] at h7
         subst h7; exact Ext.refl _ _
-    have e16 := e15.trans e6
+    have e16' := e15.trans e6
+    have hvc' : ValueLinksClosed s6' := by
+      intro i p v hi hcell
+      rw [e16'.frame.1] at hi ⊢
+      rw [e16'.keep i hi (by omega)] at hcell
+      exact hvc i p v hi hcell
+    have hsame : s6 = s6' := repointLoop_noop _ _ _ _ _ _ hvc' hR
+    subst hsame
+    have e16 := e16'
     obtain ⟨hc7, hr7, hs7⟩ := remapSymbols_cells _ _ _ _ _ _ h8
     simp only [pure, Outcome.ok.injEq, Prod.mk.injEq] at h9
     obtain ⟨h9, _⟩ := h9
@@ -427,8 +531,8 @@ theorem optimize_retained_roots_fixed {s s' : Store} {roots m : List Nat}
   split at h6
   · simp at h6
   · simp only [bind_eq_ok] at h6
-    obtain ⟨s6, h7, s7, h8, reg, _, val, _, fr, _, mapped, hm, h9⟩ := h6
-    have e6 : Ext 0 s5 s6 := by
+    obtain ⟨s6', h7, s6, hR, s7, h8, reg, _, val, _, fr, _, mapped, hm, h9⟩ := h6
+    have e6 : Ext 0 s5 s6' := by
       split at h7
       · simp only [bind_eq_ok, pure_eq_ok] at h7
         obtain ⟨⟨sx, r⟩, hx, hy⟩ := h7
@@ -436,7 +540,7 @@ theorem optimize_retained_roots_fixed {s s' : Store} {roots m : List Nat}
         exact cloneIndexStack_ext (Nat.zero_le _) hx
       · simp only [pure, Outcome.ok.injEq] at h7
         subst h7; exact Ext.refl _ _
-    have e16 := e15.trans e6
+    have e16 := (e15.trans e6).trans (repointLoop_ext _ _ _ _ _ _ hR)
     obtain ⟨_, hr7, _⟩ := remapSymbols_cells _ _ _ _ _ _ h8
     have hret : s7.retention = s.retention := hr7.trans e16.frame.1
     simp only [pure, Outcome.ok.injEq, Prod.mk.injEq] at h9
